@@ -11,6 +11,7 @@ EXTENDS GffDB, Json, IOUtils
 Data == JsonDeserialize(IOEnv.SEED_FILE)
 Hist == Data.hist
 WordNAFromFile == {}
+GtfDialectG == [DefaultDialect EXCEPT !.fmt = "gtf", !.kvsep = <<SP>>, !.fsep = <<SEMI, SP>>, !.quoted = TRUE, !.trail = TRUE]
 
 
 \* one step of a history on the model state m = [st, db, ctr, handed]
@@ -35,7 +36,8 @@ Run(m, steps, acc) ==
        Run(m2, Tail(steps), Append(acc, (Snap(m1.st, m1.db, m1.ctr) @@ [bak |-> m1.bak])))
 
 Trajectory(h) ==
-  LET c == Create(h.init.feats, h.init.dirs, DefaultDialect, h.init.cfg) IN
+  LET isGtf == "gtf" \in DOMAIN h.init /\ h.init.gtf
+      c == Create(h.init.feats, h.init.dirs, IF isGtf THEN GtfDialectG ELSE DefaultDialect, IF isGtf THEN [h.init.cfg EXCEPT !.importer = "gtf"] ELSE h.init.cfg) IN
   IF c.st = "raise" THEN <<Snap("raise", EmptyDB, {}) @@ [bak |-> [none |-> TRUE]]>>
   ELSE Run([st |-> "ok", db |-> c.db, ctr |-> c.ctr, bak |-> [none |-> TRUE]], h.steps, <<Snap("ok", c.db, c.ctr) @@ [bak |-> [none |-> TRUE]]>>)
 
